@@ -1142,6 +1142,13 @@ def start_crypto_ties(ctx):
     import hkdftie  # noqa: F401
     out = {}
 
+    def _violation(key_, what_, found_, **payload):
+        # aeadtie passes the cipher key as payload `key=`, which collides with common.violation's first parameter
+        if "key" in payload:
+            payload["cipher_key"] = payload.pop("key")
+        return violation(key_, what_, found_, **payload)
+    aeadtie.violation = _violation
+
     def one(name):
         try:
             mod = __import__(name)
